@@ -272,6 +272,34 @@ def summarize(F, key):
                     cuts += c["edges"] if c["kind"] not in ("unchecked", "diverges") else [(c["bi"], c["t"]["t"])]
                 if cuts and reach(fn, [nxt], {cb["bi"]}, cuts) is None and reach(fn, [0], {cb["bi"]}, cuts) is None:
                     each.append([ak, bk])  # A precedes B in every iteration, the first one included
+    # phase: B consumes the result of A (its arguments derive from it) and yet can run before any A has succeeded - a loop-carried value
+    # whose first use sees the initial value (`read(current); current = previous(current)`). Swapping the two statements shifts every
+    # iteration by one: the first element is skipped and one element past the end is visited.
+    phase = []
+    for bk, blst in sorted(by_key.items()):
+        if not any(c["ws"] for c in blst):
+            continue
+        batoms = set()
+        for c in blst:
+            for a in c["t"]["args"][:6]:
+                batoms |= atoms(ex.operand(a))
+        for ak, alst in sorted(by_key.items()):
+            if ak == bk or not any(c["ws"] for c in alst):
+                continue
+            ashort = _short_callee(ak)
+            if "call:" + ashort not in batoms or ashort == _short_callee(bk):
+                continue
+            # only loop-carried pairs: A and B lie on a common cycle
+            bset, aset = {c["bi"] for c in blst}, {c["bi"] for c in alst}
+            if reach(fn, [x for c in alst for x in succs(fn)[c["bi"]]], bset) is None or reach(fn, [x for c in blst for x in succs(fn)[c["bi"]]], aset) is None:
+                continue
+            cuts = []
+            for c in alst:
+                cuts += c["edges"] if c["kind"] not in ("unchecked", "diverges") else [(c["bi"], c["t"]["t"])]
+            init = reach(fn, [0], bset, cuts, dead) is not None
+            ent = [ashort, _short_callee(bk), init]
+            if ent not in phase:
+                phase.append(ent)
     # args of workspace sink calls, of std sink calls on shared state, and of workspace calls with two parameters of the same type (swap-prone)
     args = {}
     for bk, blst in sorted(by_key.items()):
@@ -387,11 +415,16 @@ def summarize(F, key):
                 assigns.setdefault(".".join(fields), []).append(_stab(F, ex.call(t, 0, ())))
     # ret: origins of the value a pure (non-Result) function returns
     ret = None
+    ret_alts = None
     rty = fn["locals"][0]["s"]
     if not is_res and rty not in ("()", "!") and not rty.startswith("core::option::Option<alloc::boxed") and fn["kind"] != "Closure":
-        a = _stab(F, ex.local(0, 0, ()))
+        e0 = ex.local(0, 0, ())
+        a = _stab(F, e0)
         if 0 < len(a) <= 24:
             ret = a
+            alts = list(e0.kids) if e0.kind == "phi" else [e0]
+            if len(alts) <= 6:
+                ret_alts = [_stab(F, x) for x in alts]
     # every stable atom the function computes with (the universe when a construct moved between a function and its closures)
     universe = set()
     for bi, t in F.calls(key):
@@ -411,7 +444,7 @@ def summarize(F, key):
         if bi in live and any(re.search(r"^core::(option::Option|result::Result)::[a-z_]+$", nm) for nm in callee_names(t)):
             combs += 1
     return {"must": must, "order": order, "args": args, "guards": guards, "silent": silent, "assigns": assigns, "ret": ret,
-            "consts": const_census(fn), "universe": sorted(universe), "gates": gates, "gates_tested": gates_tested, "combs": combs, "rejects": rejects, "reject_vars": sorted(var_blocks), "each": each, "loops": loops,
+            "consts": const_census(fn), "universe": sorted(universe), "gates": gates, "gates_tested": gates_tested, "combs": combs, "rejects": rejects, "reject_vars": sorted(var_blocks), "each": each, "loops": loops, "phase": phase, "ret_alts": ret_alts,
             "guard_n": sorted([json.loads(g), c] for g, c in gcount.items() if c > 1), "guard_all": dict(gcount)}
 
 
@@ -997,6 +1030,21 @@ def check(ctx, prop):
                                ["on the confirmed tree every loop iteration passed %s before %s; now %s can run again without it (the call was hoisted out of the loop or made conditional)" % (a, bk, bk)] + path_locs(fn, p2),
                                key_detail="each:%s>%s" % (a, bk))
                     break
+        # ---- phase: whether the first B sees the initial value or A's result
+        cur_phase = {(x[0], x[1]): x[2] for x in cur.get("phase", [])}
+        for a, bk, init in b.get("phase", []):
+            n["phase"] += 1
+            now = cur_phase.get((a, bk))
+            if now is None or now == init:
+                continue  # one of the two is gone, or B no longer consumes A's result (vacuous)
+            if [a, bk, init] in cur.get("phase", []):
+                continue
+            bad += 1
+            ctx.record("baseline-phase", "R9", k, "%s: %s %s run before the first %s" % (short(k, 2), bk, "can" if init else "cannot", a), "violation", [where],
+                       [("on the confirmed tree %s consumed the result of %s but could run before any %s (first on the initial value, then on each result); now %s always runs first: "
+                         "the initial element is skipped and the walk is shifted by one" % (bk, a, a, a)) if init else
+                        ("on the confirmed tree every %s ran on a result of %s; now the first %s runs before any %s (on the initial value): the walk is shifted by one" % (bk, a, bk, a))],
+                       key_detail="phase:%s>%s" % (a, bk))
         # ---- args: per callee, the origins of each argument (matched against every call of that callee in the function and its closures)
         cur_args = collections.defaultdict(list)
         for ck, alts in cur["args"].items():
@@ -1230,6 +1278,28 @@ def check(ctx, prop):
                 ctx.record("baseline-ret", "R9", k, "%s: the returned value keeps its origins and operators" % short(k, 2), "violation", [where],
                            ["on the confirmed tree the result derived from %s; now from %s (missing %s)" % (b["ret"], cur["ret"], sorted(need - have_r))],
                            key_detail="ret")
+        # ---- ret_alts: every way the result of a pure function is computed is one of the confirmed ways (a new early `return other_measure()`)
+        if b.get("ret_alts") and cur.get("ret_alts"):
+            base_alts = [_live_atoms(F, ba) for ba in b["ret_alts"]]
+            _cn, base_names = ws_short_names(F)
+            for ca in cur["ret_alts"]:
+                n["ret_alts"] += 1
+                cset = set(ca)
+                if not any(a.startswith(("arg", "field:", "call:")) for a in cset):
+                    continue  # a constant result (an early default) is an addition
+                if any(ba <= cset for ba in base_alts):
+                    continue
+                if any(a.startswith("call:") and a[5:] not in base_names for a in cset):
+                    continue  # computed by a workspace function the confirmed tree did not call here (extracted helper): its body is not compared
+                hv = set(cset)
+                for x in closures + helpers:
+                    hv |= set(cs.get(x)["universe"]) | set(cs.get(x).get("ret") or [])
+                if any(ba <= hv for ba in base_alts):
+                    continue
+                bad += 1
+                ctx.record("baseline-ret", "R9", k, "%s: every way the result is computed is a confirmed one" % short(k, 2), "violation", [where],
+                           ["on the confirmed tree the result of %s was computed as one of %s; now one return path computes it from %s only (a new, different measure on some path)" % (k, b["ret_alts"][:3], sorted(cset))],
+                           key_detail="ret-alt")
     ctx.stats["baseline_functions"] = len(base)
     for kk, v in n.items():
         ctx.stats["baseline_" + kk] = v
